@@ -272,6 +272,6 @@ _T = _os.environ.get('VERIF_TIER') == 'thorough' or '--tier thorough' in ' '.joi
 
 SUBCHECKS = [
     Sub(name, make_cases(cells + (THOROUGH_EXTRA.get(name, []) if _T else []), fac), check, quick=40, thorough=600, shards_quick=nsh,
-        shards_thorough=nsh, required=tuple(sorted(set(c[0] for c in cells))), budget_quick=165, budget_thorough=1200, timeout=600)
+        shards_thorough=nsh, required=tuple(sorted(set(c[0] for c in cells))), budget_quick=165, budget_thorough=900, timeout=600)
     for name, (fac, cells, nsh) in GROUPS.items()
 ]
